@@ -276,6 +276,10 @@ def trace_corr(mode, module, ntraces, relevant, rule, nontrivial, corpus_dir=Non
                 raise RuntimeError('cannot evaluate %s: %s' % (f, out[-1500:]))
             for tr, codes in zip(parts[i], res):
                 steps = [{'op': {'op': 'init', 'label': 'init'}, 'res': tr['init']['res']}] + tr['steps']
+                if len(codes) < len(steps) and codes and codes[-1] != 0:
+                    # the checker stops at a step after which the model has no state to continue from (e.g. the deployment
+                    # succeeded in the implementation and is refused by the model): that step is the divergence
+                    codes = codes + [0] * (len(steps) - len(codes))
                 if len(codes) != len(steps):
                     raise RuntimeError('trace %s: %d codes for %d steps' % (tr.get('trace'), len(codes), len(steps)))
                 nsteps += len(steps)
